@@ -466,7 +466,15 @@ private:
 		{
 			MOMO_ASSERT(!pvIsInternal());
 			size_t initCapacity = mCapacity;
-			std::forward<ItemsCreator>(itemsCreator)(&mInternalItems);
+			try
+			{
+				std::forward<ItemsCreator>(itemsCreator)(&mInternalItems);
+			}
+			catch (...)
+			{
+				mCapacity = initCapacity;
+				throw;
+			}
 			MemManagerProxy::Deallocate(GetMemManager(), mItems, initCapacity * sizeof(Item));
 			mItems = &mInternalItems;
 			mCount = count;
